@@ -189,6 +189,12 @@ Theorem C02_generated_queries_eq_model : forall st S T strict,
 Proof. exact k_queries_eq. Qed.
 Print Assumptions C02_generated_queries_eq_model.
 
+(* the C twin SB_extends (struct SB without members the model does not know): the same lookup *)
+Theorem C02_generated_c_isOrExtends_eq_model : forall st S T,
+  k_c_isOrExtends st S T = isOrExtends st S T.
+Proof. reflexivity. Qed.
+Print Assumptions C02_generated_c_isOrExtends_eq_model.
+
 (* equivalent states give the same answer to every query *)
 Theorem C02_state_equiv_same_answers : forall a b, state_equiv a b ->
   forall S T strict, isOrExtends a S T = isOrExtends b S T /\ extends a S T strict = extends b S T strict /\
